@@ -160,7 +160,7 @@ class C12(Property):
     technique = ("Lean 4 proof (induction over line histories; refinement of the pending-slot state machine by the declarative group rule) "
                  "+ differential correspondence on the public parse_general / parse_timing_points API")
     required_theorems = [
-        "pending_eq_groups", "runLines_finish", "runStrs_eq_runLines", "group_pending_eq_resolve", "applyTpLine_eq",
+        "pending_eq_groups", "runTpLines_finish", "runStrs_eq_runTpLines", "group_pending_eq_resolve", "applyTpLine_eq",
         "push_front_keeps_first", "push_front_fills_empty", "push_back_takes_last", "foldl_slot_all", "foldl_slot_timing",
         "flush_order", "addGroup_eq_ops", "rejected_line_no_trace",
         "lists_strictly_sorted", "lists_strictly_sorted_fresh",
